@@ -265,7 +265,7 @@ func c08xrd(c *Ctx, rule, pkg, stopName string, composite bool) {
 	}
 	if c.expect("instance delete", len(inst), 1, fn) {
 		if composite {
-			c.R.Check(inst[0].Block().Dominates(list[0].Block()), site(inst[0])+" before-list", c.pos(inst[0].Pos()),
+			c.R.Check(cfgx.MustPass(inst[0].Block(), list[0].Block()), site(inst[0])+" before-list", c.pos(inst[0].Pos()),
 				"DeleteAllOf(instances) dominates the List whose emptiness gates Stop", "the instance deletion does not precede the emptiness test")
 		} else {
 			// a delete inside the range over the listed items only runs when there are any
@@ -445,7 +445,7 @@ func engineStopRule(c *Ctx, id string) {
 			}
 			c.R.Check(!cfgx.InstrReaches(cancel, srcStop[0], nil), load.FuncName(fn)+": cancel after the sources", c.pos(cancel.Pos()),
 				"no source is stopped after c.cancel(): the controller's context is still live while its watches are torn down", "c.cancel() runs before the watches are stopped: a Stop issued with the controller's own (now cancelled) context, or any failed source stop, leaves a cancelled controller registered as running")
-			c.R.Check(cfgx.InstrReaches(cancel, delControllers, nil) && cancel.Block().Dominates(delControllers.Block()), load.FuncName(fn)+": cancel→delete", c.pos(delControllers.Pos()),
+			c.R.Check(cfgx.InstrReaches(cancel, delControllers, nil) && cfgx.MustPass(cancel.Block(), delControllers.Block()), load.FuncName(fn)+": cancel→delete", c.pos(delControllers.Pos()),
 				"delete(e.controllers, name) is dominated by c.cancel()", "the controller is forgotten without being cancelled")
 			// every nil-return on the running edge passes cancel: returns reachable from the block after the running test
 			for _, b := range fn.Blocks {
@@ -454,9 +454,9 @@ func engineStopRule(c *Ctx, id string) {
 					continue
 				}
 				if cfgx.InstrReaches(srcStop[0], r, failEdges(srcStop[0])) || loopDoneReaches(loop, r) {
-					okc := cancel.Block().Dominates(r.Block()) || !cfgx.InstrReaches(cancel, r, nil) && false
+					okc := cfgx.MustPass(cancel.Block(), r.Block()) || !cfgx.InstrReaches(cancel, r, nil) && false
 					if cfgx.InstrReaches(cancel, r, nil) {
-						okc = cancel.Block().Dominates(r.Block())
+						okc = cfgx.MustPass(cancel.Block(), r.Block())
 					} else {
 						continue
 					}
